@@ -247,6 +247,8 @@ func checkC09(p *Prog, l *Ledger) {
 			l.Violate("C09/S0-cursor-safety", "scanToken#"+e.Site, e.Pos, "advance() is reachable where "+e.KV["unsafe"])
 		}
 	}
+	checkExtents(p, l, g, "C09/S7-extents")
+	checkNumberScanner(p, l, "C09/S7-extents/number-shape", "C09/S2-number-token")
 	checkMunchTable(p, l, g)
 	checkKeywords(p, l, g)
 	checkStringValue(p, l, g)
@@ -738,3 +740,108 @@ func checkScanTokensLoop(p *Prog, l *Ledger) {
 }
 
 var _ = types.Typ
+
+
+// checkExtents (S7): where the three multi-rune skipping/collecting loops stop.  "separated only by blanks, //
+// comments and /* */ comments" and "a string token's value is the text between its quotes" fix the extent of each
+// construct: a line comment runs to the next newline or the end of input and no further; a block comment ends with
+// the first "*" "/" pair that lies wholly behind its opener; a string ends with the first quote behind its opener.
+// Decided on the scanner's event graph from what each path knows, at every later consumption and at the return,
+// about the runes it consumed (knowledge gained by tests made after consuming a rune counts too, so the loop may be
+// written peek-then-advance or advance-then-test).
+func checkExtents(p *Prog, l *Ledger, g *Graph, rule string) {
+	const nl, star, slash, quote = "U+000A–U+000A", "U+002A–U+002A", "U+002F–U+002F", "U+0022–U+0022"
+	atoi := func(s string) int { n, _ := strconv.Atoi(s); return n }
+	seenMode := map[string]int{}
+	mon := Monitor{Init: "start||", Step: func(s string, ev *Event) string {
+		ps := strings.SplitN(s, "|", 3) // phase | first | second
+		mode := ps[1] + ps[2]
+		switch ev.Op {
+		case "first":
+			return ps[0] + "|" + ev.Args[0] + "|" + ps[2]
+		case "match":
+			if ev.Out == "true" && ps[0] == "afterfirst" && ps[2] == "" {
+				return "afterfirst|" + ps[1] + "|" + ev.Args[0]
+			}
+			return s
+		case "token", "lexerror", "peek", "peeknext", "atend":
+			if ps[0] == "afterfirst" {
+				return "body|" + ps[1] + "|" + ps[2]
+			}
+			return s
+		case "consume":
+			if ps[0] == "start" {
+				return "afterfirst|" + ps[1] + "|" + ps[2]
+			}
+			if ps[0] == "afterfirst" && ev.Args[0] == "match" && ps[2] == "" {
+				return s // the opener's second rune (the match event set it)
+			}
+			switch mode {
+			case `'/''/'`:
+				if ev.KV["prevnl"] == "T" && atoi(ev.KV["h1adv"]) >= 3 {
+					return "!a // comment goes on consuming after a rune that may be a newline: the comment swallows the next line"
+				}
+			case `'/''*'`:
+				if ev.KV["prevpair"] == "T" {
+					return "!a /* comment goes on consuming after a '*' '/' pair behind its opener: it does not end at the first */"
+				}
+			case `'"'`:
+				if ev.KV["prevquote"] == "T" {
+					return "!a string goes on consuming after a rune that may be its closing quote: it does not end at the first quote"
+				}
+			}
+			return "body|" + ps[1] + "|" + ps[2]
+		case "return":
+			seenMode[mode]++
+			failed := ev.KV["err"] != ""
+			switch mode {
+			case `'/''/'`:
+				if failed {
+					return "!a // comment path reports a diagnostic"
+				}
+				if ev.KV["end"] == "T" || ev.KV["cur"] == nl || (ev.KV["last1"] == nl && atoi(ev.KV["last1adv"]) >= 3) {
+					return ""
+				}
+				return "!a // comment can stop although the input has not ended and the rune under the cursor is not known to be a newline (it may be " + ev.KV["cur"] + "): the rest of the comment is scanned as program text"
+			case `'/''*'`:
+				if failed {
+					if ev.KV["end"] == "T" {
+						return ""
+					}
+					return "!a /* comment is reported unterminated although the input has not ended"
+				}
+				if ev.KV["last1"] == slash && ev.KV["last2"] == star && atoi(ev.KV["last2adv"]) >= 3 {
+					return ""
+				}
+				return fmt.Sprintf("!a /* comment can end without a diagnostic although the last two runes consumed are not known to be '*' '/' behind the opener (last two: %s #%s, %s #%s; runes are numbered from the token start, the opener is #1 #2)", ev.KV["last2"], ev.KV["last2adv"], ev.KV["last1"], ev.KV["last1adv"])
+			case `'"'`:
+				if failed {
+					if ev.KV["end"] == "T" {
+						return ""
+					}
+					return "!a string is reported unterminated although the input has not ended"
+				}
+				if ev.KV["last1"] == quote && atoi(ev.KV["last1adv"]) >= 2 {
+					return ""
+				}
+				return "!a string token can be produced although the last rune consumed is not known to be a closing quote behind the opener (" + ev.KV["last1"] + " #" + ev.KV["last1adv"] + ")"
+			}
+			return ""
+		}
+		return s
+	}}
+	ws := g.Run(mon)
+	for _, w := range ws {
+		l.Violate(rule, "scanToken#"+shortMsgKey(w.Msg), posOf(w), w.Msg, witnessDetail(w))
+	}
+	var found []string
+	for _, md := range []string{`'/''/'`, `'/''*'`, `'"'`} {
+		if seenMode[md] > 0 {
+			found = append(found, md)
+		}
+	}
+	if len(ws) == 0 {
+		l.Discharge(rule, "scanToken", "", fmt.Sprintf("line comments stop only at a newline or the end of input, block comments only behind their first */, strings only behind their first quote (%d / %d / %d return paths examined)", seenMode[`'/''/'`], seenMode[`'/''*'`], seenMode[`'"'`]), true)
+	}
+	l.RequireMin(rule, 3, found, "scanner constructs with an extent (// comment, /* comment, string)")
+}
